@@ -6754,7 +6754,16 @@ fn eval_expr(
 
                     // TODO: check that all elements are of a compatible type.
                     // Dict[1 => 1, 2 => ""] should be a runtime error.
-                    value_type = Type::from_value(&value_value);
+                    //
+                    // Use the most general type of the values, so
+                    // the type doesn't depend on the order in which
+                    // the entries were written: dicts have no order.
+                    let this_value_type = Type::from_value(&value_value);
+                    if is_subtype(&value_type, &this_value_type) {
+                        value_type = this_value_type;
+                    } else if !is_subtype(&this_value_type, &value_type) {
+                        value_type = Type::Any;
+                    }
 
                     let key_value = env
                         .pop_value()
